@@ -777,7 +777,7 @@ func (c *EvalCtx) call(v *ECall) SV {
 		st := c.value(s)
 		el := s.typ.Underlying().(*types.Slice).Elem()
 		return SV{t: sel(c.st.arrHeap(el), sliceArr(st))}
-	case "calls", "arg", "ret", "recv":
+	case "calls", "arg", "argc", "ret", "panicked":
 		return c.x.logExpr(c, v)
 	case "held":
 		return c.x.lockExpr(c, v)
